@@ -389,6 +389,7 @@ def run_check(pid: str, tier: str, seed: int, jobs: int = 16) -> int:
             "components": getattr(mod, "COMPONENTS", {}),
             "known_findings_seen": sorted(printed_known),
             "jobs": jobs,
+            **(mod.coverage_extra() if hasattr(mod, "coverage_extra") else {}),
         },
         "assumptions": list(mod.ASSUMPTIONS),
         "wall_s": round(wall_s, 2),
